@@ -81,6 +81,10 @@ TABLE_WITNESS("short", TabShort, "t");
 TABLE_WITNESS("dotted", TabDotted, "io.github.eieio.Table");
 TABLE_WITNESS("high", TabHigh, "t\xc3\xa9l\xc3\xa9");
 TABLE_WITNESS("len8", TabLen8, "1234567");
+// boundary names: the empty name (one byte, the terminator) and a one-character name are hashed like any other
+TABLE_WITNESS("empty_name", TabEmptyName, "");
+TABLE_WITNESS("len1", TabLen1, "x");
+static_assert(nop::EntryListTraits<TabEmptyName>::EntryList::Hash != 0, "W:table.empty_name_is_not_the_unnamed_table");
 // The name is the whole array handed to the macro: trailing padding and embedded NULs are part of it.
 TABLE_WITNESS("embedded_nul1", TabNul1, "sensors\0v1");
 TABLE_WITNESS("embedded_nul2", TabNul2, "sensors\0v2");
